@@ -287,13 +287,17 @@ func listenerTargets(c *Ctx, id string, oi *obsInfo) []*ssa.Function {
 			if v == nil {
 				continue
 			}
-			p, ok := unwrap(v).(*ssa.Parameter)
-			if !ok {
+			traced := w.traceToCallers(fn, v, 0)
+			if len(traced) == 0 {
 				c.Fail(id, "listener-binding@"+fname(fn), a.Pos(), "observer.%s ← %s (expected the constructor's parameter)", oi.listener.Name(), w.Origin(v))
 				continue
 			}
-			for _, cs := range w.callersOf(fn) {
-				arg := argOfParam(cs.Call.Common(), fn, p)
+			for _, ta := range traced {
+				arg, cs := ta.Val, ta.Site
+				if arg == nil {
+					c.Undecided(id, "listener-binding@"+fname(cs.Fn), cs.Call.Pos(), "cannot resolve the listener handed to the observer")
+					continue
+				}
 				if m := w.boundMethodOf(arg); m != nil {
 					out = append(out, m)
 				} else if f := closureOf(arg); f != nil {
